@@ -7,3 +7,12 @@ Open Scope string_scope.
 
 Lemma mask_paths_nearest : forallb mask_interp_ok class_table = true.
 Proof. vm_compute. reflexivity. Qed.
+
+Lemma target_path_parameters_are_supplied : forallb param_row_ok param_table = true.
+Proof. vm_compute. reflexivity. Qed.
+(* the table is not empty and covers the rotation classes *)
+Lemma param_table_covers_rotations :
+  existsb (fun r => String.eqb (fst (fst r)) "ShiftScaleRotate") param_table = true /\
+  existsb (fun r => String.eqb (fst (fst r)) "Rotate") param_table = true /\
+  existsb (fun r => String.eqb (fst (fst r)) "RandomRotate90") param_table = true.
+Proof. vm_compute. repeat split; reflexivity. Qed.
